@@ -240,6 +240,9 @@ impl MemcacheBinaryCodec {
             return Err(Error::new(ErrorKind::Other, "Header body length too large"));
         }
 
+        // a request is taken from exactly the body its header announces: parse inside
+        // that slice so that no parser can run short of it or into the next request
+        let src = &mut src.split_to(self.header.body_length as usize);
         let result = match FromPrimitive::from_u8(self.header.opcode) {
             Some(binary::Command::Get)
             | Some(binary::Command::GetQuiet)
